@@ -63,6 +63,22 @@ def main():
         bad["steps"][-1]["d"] = "0" * 12
         v, _, _ = common.validate_traces("TraceObject", "TraceObject.cfg", [r, bad], wd)
         allok &= expect("TraceObject", v, "ok:history", "BAD:differs-from-reparsed")
+        # TracePipeline: recorded steps of a real conversion; corrupted = relative commands still
+        # observed after absolute(); second corruption = two steps swapped
+        from harness import c07
+        r = c07._steps(('<svg xmlns="http://www.w3.org/2000/svg" viewBox="0 0 16 16"><g style="fill:red">'
+                        '<rect x="1" y="1" width="3" height="4" style="opacity:0.5"/>'
+                        '<path d="M1,1 h3 v3z"/></g></svg>', 1))
+        bad = copy.deepcopy(r)
+        i = bad["ev"].index("absolute")
+        bad["res"][i] = sorted(set(bad["res"][i]) | {"relative"})
+        v, _, _ = common.validate_traces("TracePipeline", "TracePipeline.cfg", [r, bad], wd)
+        allok &= expect("TracePipeline", v, "ok:refines", "drift:state-after:absolute")
+        bad = copy.deepcopy(r)
+        i = bad["ev"].index("absolute")
+        bad["ev"][i], bad["ev"][i + 1] = bad["ev"][i + 1], bad["ev"][i]
+        v, _, _ = common.validate_traces("TracePipeline", "TracePipeline.cfg", [r, bad], wd)
+        allok &= expect("TracePipeline", v, "ok:refines", "drift:expected:absolute")
     finally:
         common.cleanup(wd)
     print("binding self-test", "passed" if allok else "FAILED")
